@@ -220,7 +220,82 @@ def op_reader_run(req):
     return out
 
 
-OPS = {"hdr.lines": op_hdr_lines, "reader.run": op_reader_run, "mro": op_mro, "col.build": op_col_build, "col.api": op_col_api,
+class RecordingHandle:
+    """A text handle that records every write call (the writer closes it; we keep the text)."""
+
+    def __init__(self):
+        self.chunks = []
+        self.closed = False
+
+    def write(self, t):
+        self.chunks.append(t)
+        return len(t)
+
+    def close(self):
+        self.closed = True
+
+    def text(self):
+        return "".join(self.chunks)
+
+
+def mk_record(spec):
+    """A record from a specification: parsed (Silent) or assembled through the API, then mutated."""
+    if "parse" in spec:
+        p = spec["parse"]
+        kw = {}
+        if p.get("names") is not None:
+            kw["column_names"] = p["names"]
+        try:
+            return MafRecord.from_line(p["line"], scheme=scheme_of(p), validation_stringency=MODES["Silent"], **kw)
+        except Exception:  # noqa
+            return MafRecord()
+    rec = MafRecord()
+    objs = []
+    for cj in spec.get("cols", []):
+        cls = class_of(cj) if ("cls" in cj or "scheme" in cj) else MafColumnRecord
+        col = cls(cj["key"], dec_val(cj["value"]), cj.get("index"))
+        objs.append(col)
+        try:
+            rec.add(col)
+        except Exception:  # noqa
+            pass
+    for mj in spec.get("mut", []):
+        if mj["i"] < len(objs):
+            col = objs[mj["i"]]
+            if mj["field"] == "value":
+                col.value = dec_val(mj["to"])
+            elif mj["field"] == "index":
+                col.column_index = mj["to"]
+            elif mj["field"] == "key":
+                col.key = mj["to"]
+    return rec
+
+
+def op_writer_run(req):
+    from maflib.header import MafHeader
+    from maflib.writer import MafWriter
+    h = MafHeader.from_lines(req["header_lines"], validation_stringency=MODES["Silent"])
+    buf = RecordingHandle()
+    try:
+        w = MafWriter.from_fd(buf, h, validation_stringency=MODES[req.get("mode")],
+                              assume_sorted=req.get("assume_sorted", True))
+    except Exception as e:  # noqa
+        return {"init_exc": exc_name(e)}
+    out = {"init_out": buf.text(), "steps": []}
+    for o in req["ops"]:
+        exc = None
+        try:
+            if o["k"] == "close":
+                w.close()
+            else:
+                w += mk_record(o["rec"])
+        except Exception as e:  # noqa
+            exc = exc_name(e)
+        out["steps"].append({"exc": exc, "out": buf.text()})
+    return out
+
+
+OPS = {"writer.run": op_writer_run, "hdr.lines": op_hdr_lines, "reader.run": op_reader_run, "mro": op_mro, "col.build": op_col_build, "col.api": op_col_api,
        "rec.from_line": op_rec_from_line}
 
 
